@@ -13,6 +13,8 @@ import (
 	"encoding/json"
 	"fmt"
 	"math"
+	"os"
+	"path/filepath"
 	"strings"
 
 	"github.com/libsv/go-bk/bec"
@@ -195,6 +197,10 @@ func outsEqual(a, b *bt.Tx) bool {
 
 // txCase: one transaction, both dialects.
 func txCase(stage string, tx *bt.Tx) {
+	guard("json(*bt.Tx)/case", map[string]string{"stage": stage}, func() { txCase1(stage, tx) })
+}
+
+func txCase1(stage string, tx *bt.Tx) {
 	in := map[string]string{"stage": stage, "tx_ext_hex": trunc(hex.EncodeToString(tx.ExtendedBytes()))}
 	want := tx.Bytes()
 	id := tx.TxID()
@@ -277,6 +283,37 @@ func txCase(stage string, tx *bt.Tx) {
 		c.Violate(lsite+"/document-shape", "document is not of the documented shape", in)
 		return
 	}
+	// what the documents say must be what the transaction holds
+	docOK := ld.TxID == id && ld.Hex == hex.EncodeToString(want) && ld.Version == tx.Version && ld.LockTime == tx.LockTime &&
+		len(ld.Inputs) == len(tx.Inputs) && len(ld.Outputs) == len(tx.Outputs)
+	ndocOK := nd.TxID == id && nd.Hash == id && nd.Hex == hex.EncodeToString(want) && nd.Size == len(want) && nd.Version == tx.Version && nd.LockTime == tx.LockTime &&
+		len(nd.Vin) == len(tx.Inputs) && len(nd.Vout) == len(tx.Outputs)
+	for i, ti := range tx.Inputs {
+		if docOK {
+			d := ld.Inputs[i]
+			docOK = d != nil && d.TxID == hex.EncodeToString(ti.PreviousTxID()) && d.Vout == ti.PreviousTxOutIndex && d.Sequence == ti.SequenceNumber && d.UnlockingScript == scriptHex(ti.UnlockingScript)
+		}
+		if ndocOK {
+			d := nd.Vin[i]
+			ndocOK = d != nil && d.ScriptSig != nil && d.TxID == hex.EncodeToString(ti.PreviousTxID()) && d.Vout == ti.PreviousTxOutIndex && d.Sequence == ti.SequenceNumber && d.ScriptSig.Hex == scriptHex(ti.UnlockingScript)
+		}
+	}
+	for i, to := range tx.Outputs {
+		if docOK {
+			d := ld.Outputs[i]
+			docOK = d != nil && d.Satoshis == to.Satoshis && d.LockingScript == scriptHex(to.LockingScript)
+		}
+		if ndocOK {
+			d := nd.Vout[i]
+			ndocOK = d != nil && d.ScriptPubKey != nil && d.N == i && d.ScriptPubKey.Hex == scriptHex(to.LockingScript) && d.Value == float64(to.Satoshis)/100000000
+		}
+	}
+	if !docOK {
+		c.Violate(lsite+"/document-fields", "the document does not state the transaction's fields", in)
+	}
+	if !ndocOK {
+		c.Violate(nsite+"/document-fields", "the document does not state the transaction's fields", in)
+	}
 	lc, ok1 := ld.coq()
 	nc, ok2 := nd.coq()
 	coq := ""
@@ -287,6 +324,10 @@ func txCase(stage string, tx *bt.Tx) {
 }
 
 func txsCase(txs bt.Txs) {
+	guard("json(bt.Txs)/case", map[string]int{"count": len(txs)}, func() { txsCase1(txs) })
+}
+
+func txsCase1(txs bt.Txs) {
 	in := map[string]interface{}{"count": len(txs)}
 	var want []byte
 	for _, t := range txs {
@@ -327,6 +368,10 @@ func txsCase(txs bt.Txs) {
 }
 
 func outCase(sats uint64, script []byte) {
+	guard("json(*bt.Output)/case", map[string]interface{}{"satoshis": sats, "script": trunc(hex.EncodeToString(script))}, func() { outCase1(sats, script) })
+}
+
+func outCase1(sats uint64, script []byte) {
 	o := &bt.Output{Satoshis: sats, LockingScript: bscript.NewFromBytes(script)}
 	in := map[string]interface{}{"satoshis": sats, "script": trunc(hex.EncodeToString(script))}
 	ldoc, ok := marshal("json.Marshal(*bt.Output)", o, in)
@@ -358,18 +403,37 @@ func outCase(sats uint64, script []byte) {
 	coq := ""
 	if okc && sats < 1<<63 {
 		coq = fmt.Sprintf("COut (mkGOutput %d (Some %s)) (mkOutputJ %d %s) %d %s %s %d %s", sats, common.CoqBytes(script), ld.Satoshis, common.CoqStr(ld.LockingScript),
-			o2.Satoshis, common.CoqStr(o2.LockingScript.String()), nc, o3.Satoshis, common.CoqStr(o3.LockingScript.String()))
+			o2.Satoshis, common.CoqStr(scriptHex(o2.LockingScript)), nc, o3.Satoshis, common.CoqStr(scriptHex(o3.LockingScript)))
 	}
 	c.Tally("output")
 	c.Case(coq, map[string]interface{}{"kind": "output", "lib": trunc(string(ldoc)), "node": trunc(string(ndoc))}, fmt.Sprintf("out%d/%x", sats, script), true)
 }
 
+// scriptHex: the harness's own nil-safe hex (never the library's String(), which is under test)
+func scriptHex(s *bscript.Script) string {
+	if s == nil {
+		return ""
+	}
+	return hex.EncodeToString(*s)
+}
+
 func utxoCoq(u *bt.UTXO) string {
-	return fmt.Sprintf("(mkUtxoJ %s %d %s %d)", common.CoqStr(hex.EncodeToString(u.TxID)), u.Vout, common.CoqStr(u.LockingScript.String()), u.Satoshis)
+	return fmt.Sprintf("(mkUtxoJ %s %d %s %d)", common.CoqStr(hex.EncodeToString(u.TxID)), u.Vout, common.CoqStr(scriptHex(u.LockingScript)), u.Satoshis)
+}
+
+// guard: a panic anywhere in a case (library code called outside marshal/unmarshal) is an observation
+func guard(site string, in interface{}, f func()) {
+	if p, msg := common.Safely(f); p {
+		c.Violate(site+"/panic", msg, in)
+	}
 }
 
 func utxoCase(u *bt.UTXO) {
-	in := map[string]interface{}{"txid": hex.EncodeToString(u.TxID), "vout": u.Vout, "satoshis": u.Satoshis, "script": u.LockingScript.String(), "script_nil": u.LockingScript == nil}
+	guard("json(*bt.UTXO)/case", map[string]interface{}{"satoshis": u.Satoshis, "script_nil": u.LockingScript == nil}, func() { utxoCase1(u) })
+}
+
+func utxoCase1(u *bt.UTXO) {
+	in := map[string]interface{}{"txid": hex.EncodeToString(u.TxID), "vout": u.Vout, "satoshis": u.Satoshis, "script": scriptHex(u.LockingScript), "script_nil": u.LockingScript == nil}
 	ldoc, ok := marshal("json.Marshal(*bt.UTXO)", u, in)
 	if !ok {
 		return
@@ -383,7 +447,7 @@ func utxoCase(u *bt.UTXO) {
 		return
 	}
 	same := func(a *bt.UTXO) bool {
-		return bytes.Equal(a.TxID, u.TxID) && a.Vout == u.Vout && a.Satoshis == u.Satoshis && a.LockingScript.String() == u.LockingScript.String()
+		return bytes.Equal(a.TxID, u.TxID) && a.Vout == u.Vout && a.Satoshis == u.Satoshis && scriptHex(a.LockingScript) == scriptHex(u.LockingScript)
 	}
 	if !same(u2) {
 		c.Violate("json.Marshal(*bt.UTXO)/roundtrip-fields", "txid/vout/script/satoshis differ", in)
@@ -420,6 +484,10 @@ func utxoCase(u *bt.UTXO) {
 }
 
 func utxosCase(us bt.UTXOs) {
+	guard("json(bt.UTXOs)/case", map[string]int{"count": len(us)}, func() { utxosCase1(us) })
+}
+
+func utxosCase1(us bt.UTXOs) {
 	in := map[string]interface{}{"count": len(us)}
 	ldoc, ok := marshal("json.Marshal(bt.UTXOs)", us, in)
 	if !ok {
@@ -437,7 +505,7 @@ func utxosCase(us bt.UTXOs) {
 		bad := len(got) != len(us)
 		for i := 0; !bad && i < len(us); i++ {
 			a, u := got[i], us[i]
-			bad = !bytes.Equal(a.TxID, u.TxID) || a.Vout != u.Vout || a.Satoshis != u.Satoshis || a.LockingScript.String() != u.LockingScript.String()
+			bad = !bytes.Equal(a.TxID, u.TxID) || a.Vout != u.Vout || a.Satoshis != u.Satoshis || scriptHex(a.LockingScript) != scriptHex(u.LockingScript)
 		}
 		if bad {
 			c.Violate("json.Marshal(bt.UTXOs)/roundtrip-fields", "list differs", in)
@@ -569,6 +637,12 @@ func trunc(s string) string {
 func stagedTxs(r *common.Rand, n int) {
 	ctx := context.Background()
 	for k := 0; k < n; k++ {
+		guard("tx-build-stages", map[string]int{"k": k}, func() { stagedTx(ctx, r) })
+	}
+}
+
+func stagedTx(ctx context.Context, r *common.Rand) {
+	{
 		pk, _ := bec.PrivKeyFromBytes(bec.S256(), r.Bytes(32))
 		lock, err := bscript.NewP2PKHFromPubKeyBytes(pk.PubKey().SerialiseCompressed())
 		if err != nil {
@@ -615,6 +689,9 @@ func stagedTxs(r *common.Rand, n int) {
 
 func main() {
 	c = common.Parse("C16")
+	if c.Out != "" {
+		os.Remove(filepath.Join(c.Out, "stats.json")) // a crash must not leave an older run's statistics behind
+	}
 	c.SetHeader(header)
 	c.Stats.Extra["amounts_evaluated"] = 0
 	r := common.NewRand(c.Seed)
